@@ -507,7 +507,8 @@ func (w *World) eventKindsIn(fn *ssa.Function, blocks map[*ssa.BasicBlock]bool, 
 				continue
 			}
 			fc := w.contracts[funcKey(callee)]
-			if (fc != nil && (len(fc.Ensures)+len(fc.Requires) > 0) && !fc.Flags["inline"]) || w.isRecursive(callee) || w.isModular(callee) {
+			forceInline := (fc != nil && fc.Flags["inline"]) || callee.Parent() != nil
+			if (fc != nil && (len(fc.Ensures)+len(fc.Requires) > 0) && !fc.Flags["inline"]) || (w.isRecursive(callee) && !forceInline) || w.isModular(callee) {
 				out[callee.Name()] = true
 				continue
 			}
